@@ -53,7 +53,12 @@ type caseA struct {
 	// NameForm: the shape of the (valid) bucket name: "" plain; dotted (labels separated by dots); express / olap / alias
 	// (suffixes --x-s3, --ol-s3, -s3alias that client libraries give a meaning of their own); xn (prefix xn--)
 	NameForm string `json:"name_form,omitempty"`
-	Ops      []op   `json:"ops"`
+	// Outside: next to the case's bucket there is a second one ("<bucket>-out") that was not created through the
+	// gateways under test: made by root on the plain endpoint, and made on the proxied endpoint directly (the proxy
+	// has no record of it). To the accounts of the gateway it is somebody else's bucket on both sides (operations
+	// outmk, outlist, outlistbuckets)
+	Outside bool `json:"outside,omitempty"`
+	Ops     []op `json:"ops"`
 }
 
 var keyNames = []string{"a", "dir/b", "dir/sub/c", "x y+z", "ü/é"}
@@ -537,6 +542,34 @@ func step(s *side, bkt string, o op) ([]*s3c.Resp, error) {
 			q = nq
 		}
 		return out, nil
+	case "outmk":
+		// CreateBucket of the name of the bucket made outside: refused on both sides (which error code says whose
+		// bucket it is - the proxy has no record to tell by - is not compared)
+		r, err := cl.Call("PUT", "/"+bkt+"-out", nil, nil, nil)
+		if err == nil && r.Status == 409 {
+			r.Body = nil
+			r.Header.Del("Content-Type")
+			r.Header.Del("Content-Length")
+		}
+		return one(r, err)
+	case "outlist":
+		return one(cl.Call("GET", "/"+bkt+"-out", s3c.Q("list-type", "2"), nil, nil))
+	case "outlistbuckets":
+		r, err := cl.Call("GET", "/", nil, nil, nil)
+		if err != nil {
+			return nil, err
+		}
+		var lb s3c.ListBucketsResult
+		if r.OK() && s3c.ParseXML(r, &lb) == nil {
+			found := false
+			for _, b := range lb.Buckets {
+				found = found || b.Name == bkt+"-out"
+			}
+			r.Body = []byte(fmt.Sprintf("owner=%s has-outside-bucket=%v", lb.OwnerID, found))
+			r.Header.Del("Content-Type")
+			r.Header.Del("Content-Length")
+		}
+		return []*s3c.Resp{r}, nil
 	case "listbuckets":
 		r, err := cl.Call("GET", "/", nil, nil, nil)
 		if err != nil {
@@ -866,6 +899,14 @@ func execA(c caseA) (st stats, err error) {
 		}
 		return st, err
 	}
+	if c.Outside {
+		for i, back := range []*s3c.Client{sides[0].root, s3c.NewClient(p.endp, gw.DefaultRoot)} {
+			if r, err := back.Call("PUT", "/"+bkt+"-out", nil, nil, nil); err != nil || !r.OK() {
+				return st, fmt.Errorf("SETUP: bucket made outside (side %d): %v %v", i, r, err)
+			}
+			defer back.Call("DELETE", "/"+bkt+"-out", nil, nil, nil)
+		}
+	}
 	for i, o := range c.Ops {
 		if o.Who != 0 {
 			st.User++
@@ -1003,6 +1044,14 @@ func TestC18A(t *testing.T) {
 		c.ACLs = rapid.Bool().Draw(t, "acls")
 		c.NameForm = rapid.SampledFrom([]string{"", "", "", "", "", "", "dotted", "express", "olap", "alias", "xn"}).Draw(t, "name_form")
 		c.Ops = opsGen(thorough).Draw(t, "ops")
+		if c.Outside = c.NameForm == "" && rapid.IntRange(0, 3).Draw(t, "outside") == 0; c.Outside {
+			n := rapid.IntRange(1, 3).Draw(t, "outside_ops")
+			for i := 0; i < n; i++ {
+				o := op{Kind: rapid.SampledFrom([]string{"outmk", "outlist", "outlistbuckets", "outlistbuckets"}).Draw(t, "outside_kind"), Who: rapid.IntRange(0, 2).Draw(t, "outside_who")}
+				at := rapid.IntRange(0, len(c.Ops)).Draw(t, "outside_at")
+				c.Ops = append(c.Ops[:at], append([]op{o}, c.Ops[at:]...)...)
+			}
+		}
 		versioned := false
 		if rapid.IntRange(0, 2).Draw(t, "versioned") == 0 {
 			// the whole history runs on a bucket that keeps versions: delete markers, null versions
